@@ -318,6 +318,18 @@ func checkProperty(p *Program, prop, tier string, timeoutS, workers int, start t
 	}
 	if prop == "C20" {
 		results = append(results, p.structObligations())
+	} else if prop == "C05" || prop == "C17" {
+		// the routing obligation (message switch, query switch) also carries C05 and C17
+		sr := p.structObligations()
+		var keep []*Obl
+		for _, o := range sr.Obls {
+			if hasProp(o.Props, prop) {
+				keep = append(keep, o)
+			}
+		}
+		sr.Obls = keep
+		sr.Exec.obls = keep
+		results = append(results, sr)
 	}
 	// cone: every callee contract used by a proof is itself verified as part of this property
 	done := map[string]bool{}
